@@ -38,7 +38,8 @@ Dbs == [ d1 |-> [tabs |-> (T :> [cols |-> TabA, rows |-> <<<<IntV(1), sa>>, <<In
          d2 |-> [tabs |-> (T :> [cols |-> TabA, rows |-> <<<<IntV(1), sa>>, <<IntV(2), sa>>, <<IntV(3), Null>>>>])
                           @@ (U :> [cols |-> TabB, rows |-> <<<<sa, IntV(-2147483647), IntV(-32767)>>, <<se2, IntV(2147483647), Null>>>>]),
                  \* "s"; "_" and "ab0": the ends of the packing alphabet as the odd character of a run
-                 streams |-> (<<115>> :> "b0102") @@ (<<95>> :> "b03") @@ (<<97, 98, 48>> :> "b04")],
+                 \* "a\u4840b": the table marker inside a name is an ordinary character
+                 streams |-> (<<115>> :> "b0102") @@ (<<95>> :> "b03") @@ (<<97, 98, 48>> :> "b04") @@ (<<97, 18496, 98>> :> "b05")],
          d3 |-> [tabs |-> (T :> [cols |-> TabA, rows |-> <<>>]), streams |-> << >>],
          \* a string longer than 64 KiB (the pool's long form) next to a short one, in an unlimited-width column
          d4 |-> [tabs |-> (T :> [cols |-> <<ColK, StrCol(V, 0, TRUE, FALSE, <<>>)>>,
